@@ -619,6 +619,9 @@ func (m *Manager) rotateWAL() error {
 	// Continue the sequence numbering of the old WAL in the new one
 	if currentWAL != nil {
 		newWAL.UpdateNextSequence(currentWAL.GetNextSequence())
+
+		// Whoever observes the log (replication) has to follow it to the new object
+		currentWAL.HandOverObservers(newWAL)
 	}
 
 	verifhook.At("sm.rotate.created")
